@@ -81,9 +81,16 @@ register('C07', 'proof',
                       'Context.invalidate_failed as a whole (clause 4 over all processes of the lost instances): its contract '
                       '(contracts/pending_c07_invalidate_failed.txt) executes entirely and its instance-level clauses '
                       'discharge, but the call precondition of invalidate_identifier (object invariant I11 for every '
-                      'process) is undecided within the budget, so it is NOT part of this check; the expected defect '
-                      'A11 (STOPPING-only copy on a lost instance stays listed) is reproduced natively only '
-                      '(findings/C07_invalidate_failed_stopping_demo.py)',
+                      'process) is undecided within the budget, so it is NOT part of this check. Its process-level clause '
+                      'is decomposed instead: SupvisorsInstanceStatus.running_processes (the processes handed to '
+                      'invalidate_identifier) is proved equal to its definition, ProcessStatus.invalidate_identifier is '
+                      'proved in C11, and the lemma "every process listed on the lost instance is selected" is REFUTED = '
+                      'known finding A11 (STOPPING-only copy stays listed; native demo '
+                      'findings/C07_invalidate_failed_stopping_demo.py); the composition over the two loops is not proved',
+                      'SupervisorProxyThread.handle_exception is verified as SEQUENTIAL code (a failed XML-RPC to a peer in '
+                      'any active state - CHECKING, CHECKED, RUNNING, FAILED - pushes exactly one INSTANCE_FAILURE '
+                      'notification carrying the origin of that peer; none for the local instance or an inactive peer); '
+                      'the proxy thread / main thread interleaving and the transport up to read_notification are assumed',
                       'reachability through the proxy-thread race of the STOPPED status met by on_instance_failure '
                       '(reproduced at function level after a real history, the interleaving itself is not modelled)'],
          assumptions=['the local TICK reaches on_tick (Supervisor event loop) and XML-RPC failure notifications are '
@@ -340,8 +347,10 @@ register('C06', 'proof',
                       'contract of trigger_jobs is ASSUMED (only removes elements), not verified - left undone',
                       '_WorkingState._master_next / on_process_state_event Master-only guards and '
                       'Commander.on_instances_invalidation: not done here',
-                      'Context.invalidate_failed exactness (clause post_failed_exactly, expected refutation A11): carried '
-                      'by the contract of the C07 owner (contracts/c07.py, props include C06)',
+                      'Context.invalidate_failed exactness as a whole: not under contract (see C07); its selection step '
+                      '(SupvisorsInstanceStatus.running_processes) is proved equal to its definition and the lemma "every '
+                      'process listed on the lost instance is selected" is refuted = known finding A11 (contracts/c07.py, '
+                      'props include C06)',
                       'RunningFailureHandler.abort: `self.x = set()` into a typed field is not modelled by the engine '
                       '(false alarm), contract not registered',
                       'start_sequence changes between two handler calls (ApplicationStatus.update_sequences) are outside '
